@@ -634,7 +634,7 @@ Emitted emit_nl(const Model& m, const EmitOpts& o) {
     std::string t = std::to_string(m.nopts);
     s.fields.push_back({s.out.size(), t.size(), "hdr.nopts", m.nopts, 10});
     s.out += t;
-    for (int i = 0; i < m.nopts; ++i) { s.out += ' '; s.out += std::to_string(m.options[i]); }
+    for (int i = 0; i < m.nopts; ++i) { s.out += ' '; std::string ov = std::to_string(m.options[i]); s.fields.push_back({s.out.size(), ov.size(), "hdr.option", m.options[i], -1}); s.out += ov; }
     if (m.has_vbtol) { s.out += ' '; s.out += Sink::fmt_double(m.vbtol, 0); }
   }
   s.eol(true);
